@@ -301,6 +301,62 @@ pub fn duplicates() -> Vec<(String, Option<bool>, String)> {
     out
 }
 
+/// depths of the nesting family; texts are generated, not stored: (construct, depth)
+pub const NEST_DEPTHS: [usize; 5] = [8, 64, 512, 16384, 131072];
+pub const NEST_KINDS: [(&str, &str, &str); 14] = [
+    ("paren", "( ", " )"),
+    ("optional", "[ ", " ]"),
+    ("closure", "{ ", " }"),
+    ("not", "! ", ""),
+    ("and", "& ", ""),
+    ("mixed", "( [ { ! ", " } ] )"),
+    ("choice-in-paren", "( 'x' | ", " )"),
+    ("choice-in-optional", "[ 'x' | ", " ]"),
+    ("choice-in-closure", "{ 'x' | ", " } 'y'"),
+    ("choice-in-not", "!( 'x' | ", " )"),
+    ("sequence-in-paren", "( 'x' ", " 'y' )"),
+    ("field-choice-in-paren", "( f:X | ", " )"),
+    ("two-fields-choice-in-paren", "( f:X g:X | ", " )"),
+    ("choice-of-optionals", "( [ 'x' ] | [ ", " ] )"),
+];
+
+/// one construct nested `depth` times around a literal
+pub fn nesting() -> Vec<(String, Option<bool>, String)> {
+    let mut out = Vec::new();
+    for (kn, open, close) in NEST_KINDS {
+        for d in NEST_DEPTHS {
+            let reps = if kn == "mixed" { d / 4 } else { d };
+            out.push((format!("@export Root = {}'a'{} ;\nX = 'z' ;\n", open.repeat(reps), close.repeat(reps)), None, format!("{kn} nested to depth {d}")));
+        }
+    }
+    out
+}
+
+/// `@memoize` / `@leftrec` on every kind of rule; judged per derive set: without Clone a `@memoize` rule must be
+/// rejected, with Clone every entry must be accepted
+pub fn memo_clone() -> Vec<(String, Option<bool>, String)> {
+    let kinds = [
+        ("struct", "", "f:X [ g:X ]"),
+        ("struct-position", "@position ", "f:X"),
+        ("string", "@string ", "'m' { 'n' }"),
+        ("string-position", "@string @position ", "'m'"),
+        ("position-string", "@position @string @no_skip_ws ", "'m'"),
+        ("enum", "", "@:X | @:Y"),
+        ("alias", "", "'(' @:X ')'"),
+        ("unit", "", "'m'"),
+    ];
+    let mut out = Vec::new();
+    for (kn, dirs, body) in kinds {
+        for memo in ["@memoize", "@leftrec"] {
+            for front in [true, false] {
+                let d = if front { format!("{memo} {dirs}") } else { format!("{dirs}{memo} ") };
+                out.push((format!("@export Root = m:M ;\n{d}M = {body} ;\nX = 'x' ;\nY = 'y' ;\n"), None, format!("{memo} on a {kn} rule")));
+            }
+        }
+    }
+    out
+}
+
 /// grammars that must be ACCEPTED (guards against "reject everything")
 pub fn must_accept() -> Vec<(String, Option<bool>, String)> {
     let mut out = Vec::new();
@@ -323,6 +379,8 @@ fn family(name: &str, tier: Tier) -> Vec<(String, Option<bool>, String)> {
         "mutations" => mutations(tier),
         "paths" => paths(tier),
         "duplicates" => duplicates(),
+        "memo-clone" => memo_clone(),
+        "nesting" => nesting(),
         // valid grammars of every rule kind, compiled under every derive set of one or two DERIVE_NAMES
         "derives" => vec![
             ("@export Root = a:A [ b:B ] ;\nA = 'a' ;\n@string B = 'b' ;\n".to_string(), None, "derive names".to_string()),
@@ -354,7 +412,14 @@ fn family_text(name: &str, tier: Tier, idx: u64) -> String {
 
 // ------------------------------------------------------------------------------------ worker
 
+/// the compiler runs on a thread with a fixed 8 MiB stack, so that what "too deep" means does not depend on the
+/// caller's `ulimit -s`
 pub fn worker(args: &[String]) {
+    let args: Vec<String> = args.to_vec();
+    std::thread::Builder::new().stack_size(8 << 20).spawn(move || worker_body(&args)).unwrap().join().unwrap();
+}
+
+fn worker_body(args: &[String]) {
     std::panic::set_hook(Box::new(|_| {}));
     let fam = args[0].as_str();
     let tier = Tier::parse(&args[1]);
@@ -381,7 +446,7 @@ pub fn worker(args: &[String]) {
         };
         // the catalogue is run under every derive set; the big spaces under the default one
         let name_sets;
-        let sets: &[Option<Vec<String>>] = if fam == "catalogue" {
+        let sets: &[Option<Vec<String>>] = if fam == "catalogue" || fam == "memo-clone" {
             &dsets
         } else if fam == "derives" {
             name_sets = derive_name_sets();
@@ -392,6 +457,18 @@ pub fn worker(args: &[String]) {
         for d in sets {
             // a derive set made of trait paths only must be accepted for a valid grammar
             let expect = if fam == "derives" && d.as_ref().unwrap().iter().all(|n| is_trait_path(n)) { Some(false) } else { expect };
+            let has_clone = d.as_ref().map(|v| v.iter().any(|x| x == "Clone")).unwrap_or(true);
+            let expect = if fam == "memo-clone" {
+                if has_clone {
+                    Some(false)
+                } else if text.contains("@memoize") {
+                    Some(true)
+                } else {
+                    None
+                }
+            } else {
+                expect
+            };
             st.evaluations += 1;
             let out = compile(&text, d);
             match &out {
@@ -558,8 +635,9 @@ fn run_family(fam: &str, tier: Tier, nshards: u64, st: &mut Stats, all_lines: &m
         }
         for c in crashes {
             st.violations += 1;
-            let text = c["index"].as_u64().map(|i| family_text(fam, tier, i));
-            all_lines.push(json!({"k":"viol","prop":"C15","kind":"compiler-abort-or-hang","grammar": text, "input": null, "family": fam,
+            let text = c["index"].as_u64().map(|i| family_text(fam, tier, i)).map(|t| if t.len() > 2000 { format!("{} ... ({} bytes, see `why`)", &t[..200], t.len()) } else { t });
+            let why = c["index"].as_u64().filter(|_| fam != "tokens").map(|i| family(fam, tier)[i as usize].2.clone()).unwrap_or_default();
+            all_lines.push(json!({"k":"viol","prop":"C15","kind":"compiler-abort-or-hang","grammar": text, "input": null, "family": fam, "why": why,
                 "expected": "code or an error value", "actual": c["how"], "index": c["index"]}));
         }
     }
@@ -706,7 +784,7 @@ pub fn run(tier: Tier, cli: &str) {
     let mut lines: Vec<Value> = Vec::new();
     let nshards = 16;
     let mut fams = BTreeMapCount::default();
-    for fam in ["catalogue", "paths", "duplicates", "derives", "mutations", "tokens"] {
+    for fam in ["catalogue", "paths", "duplicates", "memo-clone", "nesting", "derives", "mutations", "tokens"] {
         let before = st.evaluations;
         run_family(fam, tier, nshards, &mut st, &mut lines);
         fams.0.push((fam.to_string(), family_len(fam, tier), st.evaluations - before));
